@@ -507,6 +507,7 @@ func runC08(c *engine.Ctx) {
 	checkThrowawayBufio(c, "R8")
 	// ---- R9 ----
 	checkCloseOnRefusal(c, "R9", "RegisterVisitorConn")
+	checkNotifiedOwnerIsCheckedOwner(c, "R10")
 }
 
 // checkCloseOnRefusal (C08.R9; the same obligation for work connections is C04.R3 / C11.R8): whichever function hands a
@@ -733,4 +734,135 @@ func loadOfFieldThroughCell(f *types.Var) func(ssa.Value) bool {
 		fv, _ := engine.LoadedField(engine.Unwrap(v))
 		return fv != nil && fv == f
 	}
+}
+
+// checkNotifiedOwnerIsCheckedOwner (R10): the xtcp owner that is told about a visitor (the ClientCfg whose sidCh receives
+// the session id) is the very table entry whose key and allow-list the request was checked against — the same lookup,
+// not a second one made later under the same name (the proxy may have been closed and the name taken by another owner
+// with another key in between).
+func checkNotifiedOwnerIsCheckedOwner(c *engine.Ctx, rule string) {
+	c.Rule(rule, "nathole.Controller.HandleVisitor: the ClientCfg whose sidCh receives the sid comes from the same clientCfgs lookup as the ClientCfg whose sk signed-key check admitted the request")
+	p := c.P
+	f := fn(c, "pkg/nathole.Controller.HandleVisitor")
+	tblF := field(c, "pkg/nathole", "Controller", "clientCfgs")
+	sidF := field(c, "pkg/nathole", "ClientCfg", "sidCh")
+	skF := field(c, "pkg/nathole", "ClientCfg", "sk")
+	getKey := funcObj(c, "pkg/util/util", "GetAuthKey")
+	if f == nil || tblF == nil || sidF == nil || skF == nil || getKey == nil {
+		return
+	}
+	family := append([]*ssa.Function{f}, allAnon(f)...)
+	// local variables shared between the function and its closures: cell -> values stored anywhere in the family
+	cellOf := func(v ssa.Value) *ssa.Alloc {
+		for i := 0; i < 6; i++ {
+			switch x := v.(type) {
+			case *ssa.Alloc:
+				return x
+			case *ssa.FreeVar:
+				b := engine.ClosureBinding(x)
+				if b == nil {
+					return nil
+				}
+				v = b
+			default:
+				return nil
+			}
+		}
+		return nil
+	}
+	stored := map[*ssa.Alloc][]ssa.Value{}
+	for _, g := range family {
+		engine.ForEachInstr(g, func(in ssa.Instruction) {
+			if st, ok := in.(*ssa.Store); ok {
+				if al := cellOf(st.Addr); al != nil {
+					stored[al] = append(stored[al], st.Val)
+				}
+			}
+		})
+	}
+	var lookupsOf func(v ssa.Value) map[*ssa.Lookup]bool
+	lookupsOf = func(v ssa.Value) map[*ssa.Lookup]bool {
+		out := map[*ssa.Lookup]bool{}
+		seen := map[ssa.Value]bool{}
+		var walk func(v ssa.Value, d int)
+		walk = func(v ssa.Value, d int) {
+			if v == nil || d > 10 || seen[v] {
+				return
+			}
+			seen[v] = true
+			switch x := v.(type) {
+			case *ssa.Lookup:
+				if lf, _ := engine.LoadedField(x.X); lf == tblF {
+					out[x] = true
+				}
+			case *ssa.Extract:
+				walk(x.Tuple, d+1)
+			case *ssa.Phi:
+				for _, e := range x.Edges {
+					walk(e, d+1)
+				}
+			case *ssa.UnOp:
+				if al := cellOf(x.X); al != nil {
+					for _, sv := range stored[al] {
+						walk(sv, d+1)
+					}
+				}
+			case *ssa.ChangeType:
+				walk(x.X, d+1)
+			}
+		}
+		walk(v, 0)
+		if len(out) == 0 {
+			src := engine.DeepSources(p, v)
+			for x := range src.Values {
+				if lk, ok := x.(*ssa.Lookup); ok {
+					if lf, _ := engine.LoadedField(lk.X); lf == tblF {
+						out[lk] = true
+					}
+				}
+			}
+		}
+		return out
+	}
+	checked := map[*ssa.Lookup]bool{}
+	for _, g := range family {
+		engine.ForEachInstr(g, func(in ssa.Instruction) {
+			call, ok := in.(*ssa.Call)
+			if !ok || !engine.SameFunc(engine.CalleeObj(call), getKey) {
+				return
+			}
+			for _, a := range call.Call.Args {
+				if lf, base := engine.LoadedField(a); lf == skF && base != nil {
+					for lk := range lookupsOf(base) {
+						checked[lk] = true
+					}
+				}
+			}
+		})
+	}
+	n := 0
+	for _, g := range family {
+		g := g
+		engine.ForEachInstr(g, func(in ssa.Instruction) {
+			sd, ok := in.(*ssa.Send)
+			if !ok {
+				return
+			}
+			lf, base := engine.LoadedField(sd.Chan)
+			if lf != sidF || base == nil {
+				return
+			}
+			n++
+			okSame := true
+			notified := lookupsOf(base)
+			for lk := range notified {
+				if !checked[lk] {
+					okSame = false
+				}
+			}
+			c.Check(okSame && len(notified) > 0 && len(checked) > 0, p.FuncName(g)+">notified-owner", in.Pos(), len(notified)+len(checked), nil,
+				"the owner that is notified is the table entry the key check was made against (a second lookup by name may find another owner's proxy)")
+		})
+	}
+	c.Floor(n, 1)
 }
